@@ -181,6 +181,13 @@ func c04OnAck(c *cluster, r *pubRec, o *ackObs) {
 			_ = id
 		}
 		if have < o.minISR {
+			if tag == "" {
+				for id, v := range o.holders {
+					if v != r.value && v != "<down>" && tag == "" {
+						tag = h.fallbackKeptTag(id)
+					}
+				}
+			}
 			h.fail("C04/all", "C04/all/below-min-isr"+tag, "ALL-policy ack for %s (offset %d) sent by srv%d while only %d replicas hold the message (minimum in-sync size %d; in-sync set %v; holders %v)", r.cid, a.Offset, o.from, have, o.minISR, o.isr, o.holders)
 			return
 		}
@@ -192,6 +199,9 @@ func c04OnAck(c *cluster, r *pubRec, o *ackObs) {
 			if o.believed[id] < a.Offset {
 				h.s.Count("probe.ack_raced_with_isr_expansion")
 				continue // joined the in-sync set after the commit was decided
+			}
+			if tag == "" {
+				tag = h.fallbackKeptTag(id)
 			}
 			h.fail("C04/all", "C04/all/isr-member-lacks-message"+tag, "ALL-policy ack for %s (offset %d) sent by srv%d (epoch %d): the leader counts in-sync replica %s as holding offsets up to %d, but it holds %q at that offset (in-sync set %v)", r.cid, a.Offset, o.from, o.epoch, id, o.believed[id], trunc([]byte(v), 24), o.isr)
 			return
